@@ -246,13 +246,13 @@ func propC07(c *Ctx) {
 	// ---- R7.6 ----------------------------------------------------------
 	c.Rule("R7.6", "no error produced by a call inside jrpc2 is dropped (exceptions: calls that cannot fail, listed with reasons)", 20)
 	exceptions := map[string]string{
-		"io.ReadAll":                    "body of an already failing (non-2xx) response, used only for the error text",
-		"crypto/rand.Read":              "request id entropy; crypto/rand.Read does not fail on supported platforms",
+		"io.ReadAll":                         "body of an already failing (non-2xx) response, used only for the error text",
+		"crypto/rand.Read":                   "request id entropy; crypto/rand.Read does not fail on supported platforms",
 		"(*" + modPath + "/eth.Bytes).Write": "cannot fail (always returns nil)",
 		"(*" + modPath + "/eth.Byte).Write":  "cannot fail (always returns nil)",
-		"(*io.PipeWriter).Close":        "deferred close of the request pipe",
-		"invoke io.ReadCloser.Close":    "deferred close of the response body",
-		"fmt.Printf":                    "diagnostic output to stdout immediately before os.Exit",
+		"(*io.PipeWriter).Close":             "deferred close of the request pipe",
+		"invoke io.ReadCloser.Close":         "deferred close of the response body",
+		"fmt.Printf":                         "diagnostic output to stdout immediately before os.Exit",
 	}
 	used := map[string]bool{}
 	n := 0
